@@ -1433,7 +1433,8 @@ def _handle_unwind_stage(in_collection, unused_database, options):
             iter_array = [(None, array_value)]
         for index, field_item in iter_array:
             new_doc = copy.deepcopy(doc)
-            new_doc = helpers.set_value_by_dot(new_doc, path, field_item)
+            # The element still belongs to the input document: copy it as well.
+            new_doc = helpers.set_value_by_dot(new_doc, path, copy.deepcopy(field_item))
             if include_array_index:
                 new_doc = helpers.set_value_by_dot(new_doc, include_array_index, index)
             unwound_collection.append(new_doc)
